@@ -555,6 +555,14 @@ func (m *Machine) deepEqual(fr *frame, t types.Type, a, b Value, depth int) *smt
 	if depth > 60 {
 		m.unsupported("deepEqual: depth")
 	}
+	if m.env["snapshotEq"] == true {
+		if n, ok := t.(*types.Named); ok && n.Obj().Pkg() != nil && n.Obj().Pkg().Path() == "sync" {
+			return c.True // lock state is asserted separately (vx.LocksHeld)
+		}
+		if _, ok := a.(*Opaque); ok {
+			return c.True
+		}
+	}
 	switch u := t.Underlying().(type) {
 	case *types.Basic:
 		return m.equals(fr, t, a, b)
@@ -614,7 +622,40 @@ func (m *Machine) deepEqual(fr *frame, t types.Type, a, b Value, depth int) *smt
 		if ma == nil || mb == nil {
 			return c.Bool(ma == nil && mb == nil)
 		}
-		m.unsupported("deepEqual on maps")
+		if ma == mb {
+			return c.True
+		}
+		// same live keys with deeply equal values (both directions)
+		incl := func(x, y *Map) *smt.Term {
+			r := c.True
+			for _, ex := range x.E {
+				if ex.Del {
+					continue
+				}
+				some := c.False
+				for _, ey := range y.E {
+					if ey.Del {
+						continue
+					}
+					some = c.Or(some, c.And(m.equals(fr, u.Key(), ex.K, ey.K), m.deepEqual(fr, u.Elem(), ex.V, ey.V, depth+1)))
+				}
+				r = c.And(r, some)
+			}
+			return r
+		}
+		return c.And(incl(ma, mb), incl(mb, ma))
+	case *types.Chan, *types.Signature:
+		if m.env["snapshotEq"] == true {
+			return c.True // channels and functions are not part of a state snapshot
+		}
+	}
+	if m.env["snapshotEq"] == true {
+		if _, ok := a.(*Opaque); ok {
+			return c.True
+		}
+		if n, ok := t.(*types.Named); ok && n.Obj().Pkg() != nil && n.Obj().Pkg().Path() == "sync" {
+			return c.True // lock state is asserted separately (vx.LocksHeld)
+		}
 	}
 	return m.equals(fr, t, a, b)
 }
